@@ -126,10 +126,18 @@ def _delay(when: dawgie.EVENT) -> datetime.timedelta:
     today = now.isoweekday() - 1
 
     if when.moment.boot is not None:
-        if when in booted:
+        # a reload re-creates the factories and the algorithm instances, so the
+        # event object of the same boot event never compares equal to the one
+        # seen before the reload: remember it by name
+        fired = (
+            dawgie.util.task_name(when.algref.factory),
+            when.algref.factory.__name__,
+            when.algref.impl.name(),
+        )
+        if fired in booted:
             raise _DelayNotKnowableError()
 
-        booted.append(when)
+        booted.append(fired)
     else:
         if when.moment.day is not None:
             then = datetime.datetime(
